@@ -1713,9 +1713,11 @@ func (p *Parser) parseSelector() ast.Expr {
 
 func (p *Parser) parseIndexSpecifier() ast.SubscriptSpecifier {
 	pos := p.Token.Pos
+	// The position keywords are not reserved: without a following "(" they are ordinary identifiers (array[offset]).
+	positionKeyword := p.Token.IsIdent("OFFSET") || p.Token.IsIdent("ORDINAL") ||
+		p.Token.IsIdent("SAFE_OFFSET") || p.Token.IsIdent("SAFE_ORDINAL")
 	switch {
-	case p.Token.IsIdent("OFFSET"), p.Token.IsIdent("ORDINAL"),
-		p.Token.IsIdent("SAFE_OFFSET"), p.Token.IsIdent("SAFE_ORDINAL"):
+	case positionKeyword && p.lookaheadLparen():
 		var keyword ast.PositionKeyword
 		switch {
 		case p.Token.IsIdent("OFFSET"):
